@@ -87,10 +87,12 @@ QJsonObject generate()
         if (r < 40) {
             name = QLatin1String(kRoutes[pick(0, 7)].attr);
             StrOpts vo; vo.maxLen = 12;
-            val["s"] = strToJson(genString(vo, &used)); // the library's own attribute handlers produce strings
+            val["s"] = strToJson(chance(12) ? QString("") : genString(vo, &used)); // the library's own attribute handlers produce strings (an application that never set a version has "")
         } else if (r < 55) {
-            static const char *extraNames[] = { "line", "file", "thread_id", "app_name", "name", "qt_version" };
-            name = extraNames[pick(0, 5)];
+            // names of the slots themselves and near misses of the routed names (another letter case, a blank, a longer name): none is routed
+            static const char *extraNames[] = { "line", "file", "thread_id", "app_name", "name", "qt_version", "AppName", "APPNAME", "appname ", "app_version",
+                                                "OS_NAME", "os_name2", "os", "device", "extra", "tags", "contexts", "Host_Name", "cpu_arch_", "kernelversion", "build", "arch" };
+            name = extraNames[pick(0, 21)];
             StrOpts vo; vo.maxLen = 12;
             val = genValue(2, vo, &used, &nested);
         } else {
